@@ -318,6 +318,58 @@ theorem waiting_of_waitingB {s : State} (h : 0 < waitingB s) : ∃ i, Waiting s 
   unfold Waiting
   cases hh : s.h i <;> simp_all
 
+/-! ## `Quiescent` is the right notion -/
+
+/-- `Quiescent` says exactly that nothing can happen except the arrival of a new client event. -/
+theorem quiescent_iff_only_spawn {c : Cfg} {s : State} :
+    Quiescent s ↔ (∀ l, wstep c s l = none) ∧ (∀ i l, (∀ k, l ≠ .spawn k) → hstep c s i l = none) := by
+  constructor
+  · rintro ⟨hw, hc, hq⟩
+    refine ⟨fun l => ?_, fun i l hl => ?_⟩
+    · cases l <;> simp [wstep, hw, hc]
+    · have hqi := hq i
+      cases l
+      case spawn k => exact absurd rfl (hl k)
+      all_goals (simp only [hstep]; split <;> simp_all [HPc.quiet])
+  · rintro ⟨hw, hh⟩
+    have hidle : s.wpc = .idle := by
+      cases hp : s.wpc
+      case idle => rfl
+      case clrRtRecv => have := hw .clrRt; simp [wstep, hp] at this
+      case setIc => have := hw .setIc; simp [wstep, hp] at this
+      case start => have := hw .start; simp [wstep, hp] at this
+      case chk0 => have := hw .chk; simp [wstep, hp] at this
+      case comp rd => have := hw .chk; simp [wstep, hp] at this
+      case aborted => have := hw .lsAbort; simp [wstep, hp] at this
+      case fin => have := hw (.lsDone true); simp [wstep, hp] at this
+      case clrIc => have := hw .clrIc; simp [wstep, hp] at this
+      case clrRt => have := hw .clrRt; simp [wstep, hp] at this
+      case empty => have := hw .isEmpty; simp [wstep, hp] at this
+      case notify => have := hw .notify; simp [wstep, hp] at this
+    have hchan : s.chan = false := by
+      have := hw .recv
+      simp [wstep, hidle] at this
+      exact this
+    refine ⟨hidle, hchan, fun i => ?_⟩
+    cases hp : s.h i
+    case absent => rfl
+    case done => rfl
+    case pAwait sn =>
+      have := hh i .wake (by intro k; simp)
+      simp [hstep, hp] at this
+      simp [HPc.quiet, this]
+    case oSetIc => have := hh i .setIc (by intro k; simp); simp [hstep, hp] at this
+    case cWrite => have := hh i .write (by intro k; simp); simp [hstep, hp] at this
+    case sLoadIc k => have := hh i .loadIc (by intro k; simp); simp [hstep, hp] at this
+    case sStoreRt k => have := hh i .storeRt (by intro k; simp); simp [hstep, hp] at this
+    case sFull k => have := hh i .isFull (by intro k; simp); simp [hstep, hp] at this
+    case sDrain k => have := hh i .tryRecv (by intro k; simp); simp [hstep, hp, hchan] at this
+    case sSend k => have := hh i .send (by intro k; simp); simp [hstep, hp, hchan] at this
+    case oSetIcLate => have := hh i .setIc (by intro k; simp); simp [hstep, hp] at this
+    case pSnap => have := hh i .snap (by intro k; simp); simp [hstep, hp] at this
+    case pLoadIc sn => have := hh i .pLoadIc (by intro k; simp); simp [hstep, hp] at this
+    case pReadLs sn => have := hh i .readLs (by intro k; simp); simp [hstep, hp] at this
+    case pEmpty sn => have := hh i .pIsEmpty (by intro k; simp); simp [hstep, hp] at this
 /-! ## Schedules -/
 
 theorem act_step {c : Cfg} {s t : State} {a : Act} (h : act c s a = some t) : Step c s t := by
